@@ -25,6 +25,50 @@ from common import Driver, grid_tok, tok, untok
 
 PROP = "C15"
 
+# ---------------------------------------------------------------- watchdog
+# `_follow` is a `while True` loop: a defect there makes the real code spin forever inside numba, where
+# no Python signal handler runs.  The kernels release the GIL, so a watchdog thread can still see it:
+# when one call of the real code takes longer than HANG_SECONDS the current case is reported as a
+# failing input (key polygonize:hangs) and the process exits through Runner.finish().
+HANG_SECONDS = float(os.environ.get("VERIF_HANG_SECONDS", "90"))
+_current = {"case": None, "since": None, "runner": None, "started": False, "depth": 0}
+
+
+def _watch():
+    import time
+    while True:
+        time.sleep(1.0)
+        since, case, r = _current["since"], _current["case"], _current["runner"]
+        if since is not None and time.time() - since > HANG_SECONDS and r is not None:
+            r.fail("polygonize:hangs", f"the call did not return within {HANG_SECONDS:.0f} s (boundary following never "
+                   "comes back to its start)", case)
+            rc = r.finish()
+            os._exit(rc if rc else 1)
+
+
+class guard:
+    """with guard(r, case): <call the real code>"""
+
+    def __init__(self, r, case):
+        self.r, self.case = r, case
+
+    def __enter__(self):
+        import threading
+        import time
+        if not _current["started"]:
+            _current["started"] = True
+            threading.Thread(target=_watch, daemon=True).start()
+        _current["depth"] += 1
+        if _current["depth"] == 1:
+            _current.update(case=self.case, since=time.time(), runner=self.r)
+
+    def __exit__(self, *a):
+        _current["depth"] -= 1
+        if _current["depth"] == 0:
+            _current.update(since=None)
+        return False
+
+
 
 # ---------------------------------------------------------------- oracle
 @njit(cache=False)
@@ -250,7 +294,8 @@ def run_enum_stream(r, plan):
             for dt in range(cnt):
                 values, mask = enum_arrays(h, w, alphabet, t0 + dt)
                 try:
-                    regs, column, polys = real_internal(values, mask, conn == 8)
+                    with guard(r, dict(kind="enum", rows=h, cols=w, conn=conn, alphabet=alphabet, t=t0 + dt, tag="enum")):
+                        regs, column, polys = real_internal(values, mask, conn == 8)
                     enc = encode(regs, column, polys)
                 except Exception as ex_:  # noqa: BLE001 -- any crash of the real code on a valid raster is a finding
                     c = dict(kind="enum", rows=h, cols=w, conn=conn, alphabet=alphabet, t=t0 + dt, tag="enum")
@@ -420,6 +465,8 @@ def call_public(a, mask, conn, transform):
                                 transform=None if transform is None else np.array(transform, dtype=np.float64))
     except ValueError as ex:
         return "ValueError", str(ex), None
+    except Exception as ex:  # noqa: BLE001 -- any other exception on a valid raster is a finding
+        return type(ex).__name__, str(ex), None
     if not np.array_equal(ra.values, a, equal_nan=(a.dtype.kind == "f")):
         return "ok", (col, polys), "the input raster was modified"
     return "ok", (col, polys), None
@@ -435,9 +482,15 @@ def model_request(a, mask, conn, transform, cmd="polygonize"):
 
 
 def check_case(r, c, requests, pending, model=True):
+    with guard(r, c):
+        _check_case(r, c, requests, pending, model)
+
+
+def _check_case(r, c, requests, pending, model=True):
     a, mask = materialise(c)
     conn, tr = c["conn"], c.get("transform")
-    status, out, note = call_public(a, mask, conn, tr)
+    with guard(r, c):
+        status, out, note = call_public(a, mask, conn, tr)
     if conn not in (4, 8) or (tr is not None and len(tr) != 6):
         if status != "ValueError":
             r.fail("polygonize:validation", f"connectivity={conn} transform={tr} accepted", c)
@@ -457,7 +510,11 @@ def check_case(r, c, requests, pending, model=True):
         if tr is None:
             col0, polys0 = col, polys
         else:
-            st0, out0, _ = call_public(a, mask, conn, None)
+            with guard(r, c):
+                st0, out0, _ = call_public(a, mask, conn, None)
+            if st0 != "ok":
+                r.fail("polygonize:raises", f"polygonize raised {st0}: {out0}", c)
+                return
             col0, polys0 = out0
             bad = None
             if len(polys0) != len(polys) or any(len(x) != len(y) for x, y in zip(polys0, polys)):
@@ -539,6 +596,7 @@ def run(r, scale=1):
     for k in range({"quick": 40, "thorough": 300}[r.tier] * scale):
         c = gen_case(r.rng)
         c["transform"] = r.rng.choice(WILD_TRANSFORMS)
+        c["dtype"], c["mdtype"] = "int64", "bool"
         c["wildtransform"] = True
         r.case(c, nontrivial=True, tags=["wild-transform"])
         check_case(r, c, requests, pending)
